@@ -124,6 +124,11 @@ pub(crate) fn without_terminator(
     if bytes.get(start..) == Some(line_term) {
         return &bytes[..bytes.len() - line_term.len()];
     }
+    // When CRLF is the line terminator, a line may also end with a lone `\n`
+    // (`\n` alone is what delimits lines), which must be stripped as well.
+    if line_term.len() == 2 && bytes.last() == line_term.last() {
+        return &bytes[..bytes.len() - 1];
+    }
     bytes
 }
 
